@@ -43,6 +43,8 @@ pub struct State<'tera> {
     pub(crate) current_block_name: Option<&'tera str>,
     /// Reference to registered filters for calling filters from within filters (e.g., map filter)
     pub(crate) filters: Option<&'tera HashMap<Cow<'static, str>, StoredFilter>>,
+    /// How many nested chunks (includes, components, blocks, super()) are being interpreted
+    pub(crate) depth: usize,
 }
 
 impl<'t> State<'t> {
@@ -70,6 +72,7 @@ impl<'t> State<'t> {
             blocks: Vec::new(),
             current_block_name: None,
             filters: None,
+            depth: 0,
         }
     }
 
